@@ -85,6 +85,8 @@ pub struct Plan {
     pub early: bool,
     /// Do not read at all (receiver stalls)
     pub no_read: bool,
+    /// Audit API-level flow-control answers against the probe after every write/open (C05)
+    pub audit: bool,
 }
 
 #[derive(Debug, Clone, Default)]
@@ -192,7 +194,16 @@ impl StdApp {
             if self.open_blocked[sp.dir as usize] {
                 break;
             }
-            match cx.conn.streams().open(sp.dir) {
+            let before = self.plan.audit.then(|| cx.conn.verif_probe().streams);
+            let opened = cx.conn.streams().open(sp.dir);
+            if let Some(b) = before {
+                let d = sp.dir as usize;
+                let room = b.next[d] < b.max[d];
+                if opened.is_some() != room && !cx.conn.is_closed() {
+                    self.violation(format!("audit: open({:?}) returned {:?} with {} streams opened and peer limit {}", sp.dir, opened, b.next[d], b.max[d]));
+                }
+            }
+            match opened {
                 Some(id) => {
                     did = true;
                     let idx = self.next_plan;
@@ -265,6 +276,15 @@ impl StdApp {
                         break;
                     }
                     t.written += k as u64;
+                    if self.plan.audit {
+                        let pr = cx.conn.verif_probe().streams;
+                        if pr.data_sent > pr.max_data {
+                            self.violation(format!("audit: after write() data_sent {} exceeds the peer's connection limit {}", pr.data_sent, pr.max_data));
+                        }
+                        if pr.unacked_data > pr.send_window && !cx.conn.is_handshaking() {
+                            self.violation(format!("audit: after write() unacknowledged data {} exceeds the send window {}", pr.unacked_data, pr.send_window));
+                        }
+                    }
                 }
                 Err(WriteError::Blocked) => {
                     t.blocked = true;
